@@ -257,7 +257,8 @@ pub fn ladder_source(kind: &str, n: usize) -> String {
         "long-tuple" => wrap(format!("    ({}) = ({});", vec!["x"; n.max(2)].join(", "), vec!["1"; n.max(2)].join(", "))),
         "statement-list" => wrap("    x = x + 1;\n".repeat(n)),
         "else-if-chain" => wrap(format!("    if (n == 0) {{ x = 0; }}{}", (1..n).map(|i| format!(" else if (n == {i}) {{ x = {i}; }}")).collect::<String>())),
-        "ternary-chain" => wrap(format!("    x = {}0;", "n ? 1 : ".repeat(n))),
+        // (the ternary operator does not nest without parentheses in the grammar)
+        "ternary-chain" => wrap(format!("    x = {}0{};", "n ? 1 : (".repeat(n), ")".repeat(n))),
         "many-definitions" => {
             let mut s = String::from("pragma circom 2.1.0;\n");
             for i in 0..n {
@@ -661,6 +662,16 @@ pub fn run(run: &Run) {
     for k in LADDERS {
         for n in sizes {
             ladder.push((k, *n));
+        }
+    }
+    // Every construct of the ladder must be grammatical: at the smallest size the real parser
+    // accepts it (a construct that is rejected at every size explores nothing).
+    for k in LADDERS {
+        let src = ladder_source(k, 10);
+        let accepted = matches!(catch(|| parser::verif::parse_string(&src)), Ok(Some(_)));
+        run.set_extra(&format!("ladder_{k}_accepted_by_parser"), json!(accepted));
+        if !accepted {
+            run.machinery_error(&format!("ladder construct `{k}` is not accepted by the parser at size 10: {}", crate::infra::truncate(&src, 200)));
         }
     }
     if run.tier == Tier::Quick {
